@@ -382,6 +382,7 @@ func run(t *T) {
 			}
 		default:
 			o := gen.Opts{
+				IATCorrections:  true,
 				Categories:      gen.AllCategories(),
 				MinBatches:      minB,
 				MaxBatches:      maxB,
